@@ -93,6 +93,10 @@ func updateLiquidityRewards(context vm_context.AccountVmContext) ([]*nom.Account
 	result := make([]*nom.AccountBlock, 0)
 
 	for {
+		// stop before the epoch cursor moves: an epoch that does not fit into this update stays due for the next one
+		if len(result) >= constants.MaxEpochsPerUpdate {
+			return result, nil
+		}
 		if err := checkAndPerformUpdateEpoch(context, lastEpoch); err == constants.ErrEpochUpdateTooRecent || len(result) >= constants.MaxEpochsPerUpdate {
 			liquidityLog.Debug("invalid update - rewards not due yet", "epoch", lastEpoch.LastEpoch+1)
 			return result, nil
